@@ -29,3 +29,35 @@ def compose(msgtype, seq, sender, target, sending, body=(), possdup=False, orig=
 
 def new_order(clordid):
     return [(11, clordid), (21, 1), (55, "BHP"), (54, 1), (60, "20230101-00:00:00"), (38, 100), (40, 2), (44, "47.78"), (59, 4)]
+
+
+def split_stream(data):
+    """Split a byte stream into complete FIX messages (8=...10=xxx<SOH>)."""
+    out = []
+    pos = 0
+    while True:
+        i = data.find(b"\x0110=", pos)
+        if i < 0:
+            break
+        j = data.find(b"\x01", i + 1)
+        if j < 0:
+            break
+        out.append(data[pos:j + 1])
+        pos = j + 1
+    return out
+
+
+def parse(wire):
+    """tag -> value (last occurrence) of a FIX message."""
+    d = {}
+    for tok in wire.decode("latin-1").split(SOH):
+        if "=" in tok:
+            t, v = tok.split("=", 1)
+            d[t] = v
+    return d
+
+
+def epoch(tsv):
+    import calendar
+    import time
+    return calendar.timegm(time.strptime(tsv[:17], "%Y%m%d-%H:%M:%S"))
